@@ -13,7 +13,9 @@
 //! view's own `(shape, strides)` is sent through the same `ov` request (so the model is
 //! compared too) and `may_have_internal_overlap` must answer `false`:
 //! PROPFAIL `derived layout rejected` otherwise.  `Derived` in `Props/C08.lean` is the proved
-//! counterpart (`merge_axes` is exercised here but is not a constructor of `Derived`).
+//! counterpart; `Props/C08Views.lean` proves `Derived` closed under C09's layout model of these
+//! operations, and each whole chain is also replayed through that model (`dv <shape> | op | …`
+//! request, answer `dims=<size,stride …> overlap=.. contig=..`).
 //!
 //! Capacity-expansion oracle (first clause, "accepted … for capacity expansion"): section (d)
 //! builds owned tensors with spare capacity whose growth axis has size 0/1 and any stride
@@ -154,7 +156,7 @@ fn derived_chain(out: &mut Out, rng: &mut Rng, thorough: bool) {
         .collect();
     let t = Tensor::<u8>::zeros(shape.as_slice());
     let mut v: TensorView<u8> = t.view();
-    let mut chain = format!("[{}]", hcommon::join(shape.iter(), ","));
+    let mut chain = if shape.is_empty() { "-".to_string() } else { hcommon::join(shape.iter(), ",") };
     one_ex(out, v.shape().as_ref(), v.strides().as_ref(), Want::Derived(&chain));
     let n_ops = 1 + rng.usize_below(if thorough { 10 } else { 6 });
     for k in 0..n_ops {
@@ -166,7 +168,7 @@ fn derived_chain(out: &mut Out, rng: &mut Rng, thorough: bool) {
                 let mut perm: Vec<usize> = (0..nd).collect();
                 rng.shuffle(&mut perm);
                 v = v.permuted(perm.as_slice());
-                ("perm", format!("perm{perm:?}"))
+                ("perm", format!("perm {}", hcommon::join(perm.iter(), ",")))
             }
             1 => {
                 v = v.transposed();
@@ -175,7 +177,7 @@ fn derived_chain(out: &mut Out, rng: &mut Rng, thorough: bool) {
             2 if nd > 0 => {
                 let (a, b) = (rng.usize_below(nd), rng.usize_below(nd));
                 v.move_axis(a, b);
-                ("mv", format!("mv{a}>{b}"))
+                ("mv", format!("mv {a} {b}"))
             }
             3 | 4 | 12 | 13 if nd > 0 => {
                 // slice a prefix of the axes with ranges (positive steps) and indices
@@ -188,7 +190,7 @@ fn derived_chain(out: &mut Out, rng: &mut Rng, thorough: bool) {
                         let i = rng.usize_below(size) as isize;
                         let i = if rng.chance(1, 3) { i - size as isize } else { i };
                         items.push(SliceItem::Index(i));
-                        txt += &format!(" i{i}");
+                        txt += &format!(" i:{i}");
                     } else {
                         let (start, end) = pick_range(rng, size);
                         let step = if rng.chance(1, 3) { 1 } else { 1 + rng.usize_below(4) } as isize;
@@ -200,7 +202,7 @@ fn derived_chain(out: &mut Out, rng: &mut Rng, thorough: bool) {
                             e0 = if end == size { None } else { Some(end as isize - size as isize) };
                         }
                         items.push(SliceItem::Range(SliceRange::new(s0, e0, step)));
-                        txt += &format!(" {s0}:{}:{step}", e0.map(|e| e.to_string()).unwrap_or_default());
+                        txt += &format!(" r:{s0}:{}:{step}", e0.map(|e| e.to_string()).unwrap_or("_".into()));
                     }
                 }
                 match v.try_slice(items.as_slice()) {
@@ -215,7 +217,7 @@ fn derived_chain(out: &mut Out, rng: &mut Rng, thorough: bool) {
                 let a = rng.usize_below(nd);
                 let (s0, e0) = pick_range(rng, sh[a]);
                 v = v.slice_axis(a, s0..e0);
-                ("slice_axis", format!("sa{a}:{s0}..{e0}"))
+                ("slice_axis", format!("sa {a} {s0} {e0}"))
             }
             6 if nd > 0 => {
                 let a = rng.usize_below(nd);
@@ -224,7 +226,7 @@ fn derived_chain(out: &mut Out, rng: &mut Rng, thorough: bool) {
                 } else {
                     let i = rng.usize_below(sh[a]);
                     v = v.index_axis(a, i);
-                    ("index_axis", format!("ix{a}:{i}"))
+                    ("index_axis", format!("ix {a} {i}"))
                 }
             }
             7 if nd > 0 => {
@@ -237,12 +239,12 @@ fn derived_chain(out: &mut Out, rng: &mut Rng, thorough: bool) {
                 let (l, r) = v.split_at(a, mid);
                 let right = rng.chance(1, 2);
                 v = if right { r } else { l };
-                ("split_at", format!("split{a}@{mid}{}", if right { "R" } else { "L" }))
+                ("split_at", format!("sp{} {a} {mid}", if right { "r" } else { "l" }))
             }
             8 => {
                 let a = rng.usize_below(nd + 1);
                 v.insert_axis(a);
-                ("insert_axis", format!("ia{a}"))
+                ("insert_axis", format!("ia {a}"))
             }
             9 => {
                 let units: Vec<usize> = (0..nd).filter(|&d| sh[d] == 1).collect();
@@ -254,7 +256,7 @@ fn derived_chain(out: &mut Out, rng: &mut Rng, thorough: bool) {
                 } else {
                     let a = *rng.pick(&units);
                     v.remove_axis(a);
-                    ("remove_axis", format!("ra{a}"))
+                    ("remove_axis", format!("ra {a}"))
                 }
             }
             10 => {
@@ -275,6 +277,19 @@ fn derived_chain(out: &mut Out, rng: &mut Rng, thorough: bool) {
             break; // an empty view stays empty; only sometimes keep going
         }
     }
+    // the whole chain replayed through C09's layout model (`dv` request): the model must
+    // arrive at the same (size, stride) list and verdict as the real view operations
+    let (sh, st): (Vec<usize>, Vec<usize>) = (v.shape().to_vec(), v.strides().to_vec());
+    let ov = may_have_internal_overlap(sh.as_slice(), st.as_slice());
+    let c = is_contiguous(&sh.as_slice(), &st.as_slice());
+    let ans = format!(
+        "dims={} overlap={} contig={}",
+        hcommon::join(sh.iter().zip(&st).map(|(a, b)| format!("{a},{b}")), " "),
+        ov as u8,
+        c as u8
+    );
+    out.bucket("derived_chain_model_replay");
+    out.case(&format!("dv {chain}"), &ans, None, sh.len() >= 2 && !c && !sh.contains(&0));
 }
 
 /// `start..end` within `0..size`, non-empty 7 times out of 8 when possible.
